@@ -7,3 +7,12 @@ func goid() uint64 { return gid.Get() }
 // FastGoid reports whether goroutine ids are read directly from the runtime's
 // g structure (calibrated at start-up) rather than parsed from stack traces.
 func FastGoid() bool { return gid.Fast() }
+
+// CurrentTaskName returns the name of the calling task ("" outside a world).
+func CurrentTaskName() string {
+	w := W
+	if w == nil {
+		return ""
+	}
+	return w.self().Name
+}
